@@ -40,7 +40,7 @@ PROFILE = machine.Profile(
     ops=C.BUILD + C.TRAITAGG * 3 + C.ALLOC + C.DELETE + C.READ * 2 +
     C.STRUCT + [(2, 'delete_inventory'), (2, 'delete_inventories')],
     oracles=[oracles.c10_oracle], nontrivial=nontrivial, steps=40,
-    boundaries=(19, 28, 13, 30), defect_rate=3)
+    boundaries=(19, 28, 13, 30), defect_rate=3, rich_start=5)
 
 C.standard_module(globals(), 'C10', PROFILE, 25, 400)
 _run = run_worker  # noqa: F821
